@@ -104,3 +104,11 @@ def whole_cost(make, rows):
     its output columns."""
     rows = np.asarray(rows, dtype=float)
     return float(make().fit(rows).evaluate(np.array([[0, len(rows)]])).sum())
+
+
+def very_long_series(n, period=173):
+    """One deterministic piecewise-constant series of length n with a level change every `period` samples (levels cycle
+    through 0, 3, -2, 5) plus a small texture; for the 'very long' single cases that put block / chunk boundaries of an
+    implementation (powers of two, 1000, 4096, ...) strictly inside the data."""
+    levels = (0.0, 3.0, -2.0, 5.0)
+    return [levels[(t // period) % 4] + 0.25 * (((t * 7 + 3) % 5) - 2) / 2.0 + 0.125 * ((t * t) % 3) for t in range(n)]
